@@ -472,7 +472,8 @@ where
         b = b.ignore_corrupted();
     }
     let alt = if sess.bloom_use_alt { sess.bloom_alt.as_ref() } else { None };
-    if let Some(bl) = alt.or(store.bloom.as_ref()) {
+    let bloom_off = sess.bloom_use_alt && sess.bloom_alt_off;
+    if let Some(bl) = alt.or(store.bloom.as_ref()).filter(|_| !bloom_off) {
         b = b.set_filter_config(BloomConfig {
             elements: bl.elements,
             hashers_count: bl.hashers,
